@@ -88,8 +88,11 @@ type C1 struct {
 	TypedNilDial bool          // FDialFail: the dial function returns a typed nil connection together with its error
 
 	Hooks        bool
-	Then         *C1  // a follow-up call on the same client (same kind, own request and reply script)
-	ObserveParse bool // network clients only: build with modbus.NewClient and wrapped parse functions to see parser invocations
+	LongSilence  bool   // C07: one gap of 50-93 % of the read timeout
+	Then         *C1    // a follow-up call on the same client (same kind, own request and reply script)
+	KeepStale    bool   // follow-up call: bytes the previous exchange left unread (or that arrive late) are still there
+	LateRest     []byte // first call, stall faults: the rest of the reply arrives after the call has given up
+	ObserveParse bool   // network clients only: build with modbus.NewClient and wrapped parse functions to see parser invocations
 }
 
 type hookRec struct {
@@ -127,8 +130,9 @@ type C1Outcome struct {
 	Flushes  int
 	ConnErr  error
 
-	Next    []*C1Outcome // outcomes of follow-up calls (C1.Then)
-	recFrom int
+	Next     []*C1Outcome // outcomes of follow-up calls (C1.Then)
+	recFrom  int
+	hookFrom int
 
 	ParseCalls     int
 	ParseArg       []byte
@@ -180,6 +184,7 @@ func RunC1(rc *RunCtx, sc *C1) *C1Outcome {
 	}
 
 	cur := sc // the call whose reply script the next write arms (follow-up calls: sc.Then)
+	curOut := out
 	arm := func(c *Conn, _ []byte) {
 		sc := cur
 		if sc.Fault == FCancelAfterWrite {
@@ -208,6 +213,9 @@ func RunC1(rc *RunCtx, sc *C1) *C1Outcome {
 			if sc.EOFWithLast && len(segs) > 0 {
 				segs[len(segs)-1].err = io.EOF
 			}
+		}
+		if len(sc.LateRest) > 0 {
+			segs = append(segs, seg{data: sc.LateRest, gap: sc.ReadTimeout + 40*time.Millisecond, solo: true})
 		}
 		c.Push(segs...)
 		if sc.Fault == FEOF || sc.Fault == FIOErr || sc.EOFWithLast {
@@ -267,11 +275,11 @@ func RunC1(rc *RunCtx, sc *C1) *C1Outcome {
 				}
 			}
 			conf.ParseResponseFunc = func(b []byte) (packet.Response, error) {
-				out.ParseCalls++
-				out.ParseArg = append([]byte(nil), b...)
+				curOut.ParseCalls++
+				curOut.ParseArg = append([]byte(nil), b...)
 				if hooks != nil {
 					n := len(hooks.recs)
-					out.ParseAfterHook = n > 0 && hooks.recs[n-1].Kind == "parse"
+					curOut.ParseAfterHook = n > 0 && hooks.recs[n-1].Kind == "parse"
 				}
 				return inner(b)
 			}
@@ -325,12 +333,19 @@ func RunC1(rc *RunCtx, sc *C1) *C1Outcome {
 		// follow-up calls on the same client and connection (each with its own reply script)
 		for next := sc.Then; next != nil; next = next.Then {
 			cl.lock()
-			cl.in.segs, cl.in.eof = nil, false // what the previous exchange left unread is gone (a real port is flushed / drained)
+			if !next.KeepStale {
+				cl.in.segs, cl.in.eof = nil, false // what the previous exchange left unread is gone (a real port is flushed / drained)
+			}
 			o := &C1Outcome{recFrom: len(cl.Rec)}
+			if hooks != nil {
+				o.hookFrom = len(hooks.recs)
+			}
 			cl.unlock()
-			cur = next
+			cur, curOut = next, o
 			t1 := s.Now()
-			o.Resp, o.Err = doer.Do(ctx, next.LibReq)
+			// follow-up calls get a fresh context: a deadline left over from the first call could fall on the follow-up's own
+			// timeout instant, and Go picks at random when both are ready in one select (not a tape decision)
+			o.Resp, o.Err = doer.Do(context.Background(), next.LibReq)
 			o.Elapsed = s.Now() - t1
 			o.Returned = true
 			s.Logf("do-returned err=%v", o.Err)
@@ -376,7 +391,18 @@ func RunC1(rc *RunCtx, sc *C1) *C1Outcome {
 		fill(o, cl.Rec[o.recFrom:e])
 	}
 	if hooks != nil {
-		out.Hooks = hooks.recs
+		hend := len(hooks.recs)
+		if len(out.Next) > 0 {
+			hend = out.Next[0].hookFrom
+		}
+		out.Hooks = hooks.recs[:hend]
+		for i, o := range out.Next {
+			e := len(hooks.recs)
+			if i+1 < len(out.Next) {
+				e = out.Next[i+1].hookFrom
+			}
+			o.Hooks = hooks.recs[o.hookFrom:e]
+		}
 	}
 	rc.finishFrom(s)
 	return out
